@@ -292,12 +292,13 @@ def _bind(h, call, caller_self):
     return m
 
 
-def _instantiate(h, call, caller, caller_self, form, target=None):
-    """Statements (or, for form 'expr', an expression) replacing the call."""
+def _instantiate(h, call, caller, caller_self, form, target=None, shared=frozenset()):
+    """Statements (or, for form 'expr', an expression) replacing the call.
+    shared: names the body of h shares with the caller (fields of a dissolved object): never renamed."""
     m = _bind(h, call, caller_self)
     if m is None:
         return None
-    taken = _all_names(caller)
+    taken = _all_names(caller) - set(shared)
     exprs, names, binds = {}, {}, []
     whole = {a.id for a in m.values() if isinstance(a, ast.Name)}
 
@@ -348,7 +349,7 @@ def _instantiate(h, call, caller, caller_self, form, target=None):
                 mapped.append(i)
         if mapped:
             keep_positions = [i for _, _, i in pairs if i not in mapped]
-    for loc in sorted(h.stored - set(m) - set(names)):
+    for loc in sorted(h.stored - set(m) - set(names) - set(shared)):
         if loc in taken:
             new = "%s__%s" % (h.name.strip("_"), loc)
             if new in taken:
@@ -423,6 +424,8 @@ def normalise(trees, protected):
     done = []
     for _ in range(80):
         one = _one_pass(trees, protected)
+        if one is None:
+            one = _dissolve_object(trees, protected)
         if one is None:
             break
         done.append(one)
@@ -587,3 +590,346 @@ def _one_pass(trees, protected):
         # the tables above describe the tree before this change: one helper per pass
         return "%s:%s%s" % (h.mod, (h.cls.name + ".") if h.cls is not None else "", h.name)
     return None
+
+
+# ---------------------------------------------------------------------------------------------------------------------------
+# Small record / accumulator classes used as a local object: `t = Tally(); t.add(n, ok); ...; return t.percent()`.
+# The object is replaced by one local per field (t_matched, t_consumed) and its methods are inlined; the class is removed.
+# Conditions: a top-level class without bases (optionally a plain @dataclass), fields with constant defaults or assigned in
+# __init__, plain methods that touch the object only through `self.<field>`; every mention of the class is a construction
+# `x = K(...)` assigned to a local that is used only as `x.<field>` / `x.<method>(...)` in that function.
+
+class _SelfFields(ast.NodeTransformer):
+    def __init__(self, self_name, mapping):
+        self.self_name, self.mapping, self.bad = self_name, mapping, False
+
+    def visit_Attribute(self, n):
+        if isinstance(n.value, ast.Name) and n.value.id == self.self_name:
+            if n.attr in self.mapping:
+                return ast.copy_location(ast.Name(id=self.mapping[n.attr], ctx=n.ctx), n)
+            self.bad = True
+            return n
+        return self.generic_visit(n)
+
+    def visit_Name(self, n):
+        if n.id == self.self_name:
+            self.bad = True
+        return n
+
+
+def _parents(tree):
+    parent = {}
+    for n in ast.walk(tree):
+        for c in ast.iter_child_nodes(n):
+            parent[c] = n
+    return parent
+
+
+def _class_shape(k):
+    """(fields in order, defaults, methods, is_dataclass) or None."""
+    if k.keywords:
+        return None
+    dc = False
+    if k.bases:
+        # a typing.NamedTuple record: fields by annotation, construction by position or keyword, read-only
+        if len(k.bases) == 1 and ((isinstance(k.bases[0], ast.Name) and k.bases[0].id == "NamedTuple") or (isinstance(k.bases[0], ast.Attribute) and k.bases[0].attr == "NamedTuple")) \
+                and not k.decorator_list:
+            dc = True
+        else:
+            return None
+    for d in k.decorator_list:
+        if isinstance(d, ast.Name) and d.id == "dataclass":
+            dc = True
+        else:
+            return None
+    fields, defaults, methods = [], {}, {}
+    for st in k.body:
+        if isinstance(st, ast.Expr) and isinstance(st.value, ast.Constant):
+            continue
+        if isinstance(st, ast.Assign) and len(st.targets) == 1 and isinstance(st.targets[0], ast.Name) and st.targets[0].id == "__slots__":
+            continue
+        if isinstance(st, ast.AnnAssign) and isinstance(st.target, ast.Name) and dc:
+            if st.value is not None and not isinstance(st.value, ast.Constant):
+                return None
+            fields.append(st.target.id)
+            if st.value is not None:
+                defaults[st.target.id] = st.value
+            continue
+        if isinstance(st, ast.FunctionDef) and not st.decorator_list and st.args.args:
+            methods[st.name] = st
+            continue
+        return None
+    if dc and "__init__" in methods:
+        return None
+    if not dc:
+        for m in methods.values():
+            sn = m.args.args[0].arg
+            for x in ast.walk(m):
+                if isinstance(x, ast.Attribute) and isinstance(x.value, ast.Name) and x.value.id == sn and isinstance(x.ctx, ast.Store) and x.attr not in fields:
+                    fields.append(x.attr)
+    if not fields or set(fields) & set(methods):
+        return None
+    return fields, defaults, methods, dc
+
+
+def _pseudo_helper(mod, meth, mapping):
+    """The method as a function over the field locals (self.<f> -> <local>), or None."""
+    node = copy.deepcopy(meth)
+    sn = node.args.args[0].arg
+    node.args.args = node.args.args[1:]
+    node.name = node.name.strip("_") or "m"
+    tr = _SelfFields(sn, mapping)
+    node.body = [tr.visit(st) for st in node.body]
+    if tr.bad:
+        return None
+    h = _Helper(mod, None, node)
+    if not h.admissible():
+        return None
+    return h
+
+
+def _dissolve_object(trees, protected):
+    for mn in sorted(trees):
+        t = trees[mn]
+        for k in [st for st in t.body if isinstance(st, ast.ClassDef)]:
+            if k.name in protected:
+                continue
+            shape = _class_shape(k)
+            if shape is None:
+                continue
+            # every mention of the class name, package wide
+            elsewhere = False
+            for mn2, t2 in trees.items():
+                for n in ast.walk(t2):
+                    if (isinstance(n, ast.Name) and n.id == k.name) or (isinstance(n, ast.Attribute) and n.attr == k.name) \
+                            or (isinstance(n, ast.Constant) and n.value == k.name) or (isinstance(n, (ast.Import, ast.ImportFrom)) and any(k.name in (al.name, al.asname) for al in n.names)):
+                        if mn2 != mn or not isinstance(n, ast.Name):
+                            elsewhere = True
+            if elsewhere:
+                continue
+            work = copy.deepcopy(t)
+            if _dissolve_in(work, mn, k.name, shape):
+                t.body[:] = work.body
+                return "%s:%s (object dissolved into locals)" % (mn, k.name)
+    return None
+
+
+def _dissolve_in(tree, mn, kname, shape):
+    fields, defaults, methods, dc = shape
+    started = set()
+    touched = []
+    for _ in range(40):
+        parent = _parents(tree)
+        cons = [n for n in ast.walk(tree) if isinstance(n, ast.Name) and n.id == kname and isinstance(n.ctx, ast.Load)]
+        if not cons:
+            break
+        ref = cons[0]
+        call = parent.get(ref)
+        asg = parent.get(call)
+        if not (isinstance(call, ast.Call) and call.func is ref and isinstance(asg, ast.Assign) and asg.value is call and len(asg.targets) == 1 and isinstance(asg.targets[0], ast.Name)):
+            return False
+        x = asg.targets[0].id
+        f = asg
+        while f is not None and not isinstance(f, (ast.FunctionDef, ast.AsyncFunctionDef)):
+            if isinstance(f, (ast.Lambda, ast.ClassDef)):
+                return False
+            f = parent.get(f)
+        if not isinstance(f, ast.FunctionDef):
+            return False
+        # x is used only in f's own body, never inside a nested scope
+        for n in ast.walk(f):
+            if n is not f and isinstance(n, (ast.FunctionDef, ast.AsyncFunctionDef, ast.Lambda, ast.ClassDef)) and any(isinstance(y, ast.Name) and y.id == x for y in ast.walk(n)):
+                return False
+        if x in {a.arg for a in f.args.posonlyargs + f.args.args + f.args.kwonlyargs}:
+            return False
+        mapping = {fl: "%s_%s" % (x, fl) for fl in fields}
+        if set(mapping.values()) & _all_names(f) and (f, x) not in started:
+            return False
+        started.add((f, x))
+        uses = [n for n in ast.walk(f) if isinstance(n, ast.Name) and n.id == x]
+        for n in uses:
+            if isinstance(n.ctx, ast.Store):
+                # every definition of x is a construction of the class (the arms of an if)
+                a_ = parent.get(n)
+                if not (isinstance(a_, ast.Assign) and len(a_.targets) == 1 and a_.targets[0] is n and isinstance(a_.value, ast.Call)
+                        and isinstance(a_.value.func, ast.Name) and a_.value.func.id == kname):
+                    return False
+            elif isinstance(n.ctx, ast.Del):
+                return False
+        # 1. method calls, one at a time (the tree changes under us)
+        for _ in range(60):
+            parent = _parents(tree)
+            pending = [n for n in ast.walk(f) if isinstance(n, ast.Name) and n.id == x and isinstance(n.ctx, ast.Load) and isinstance(parent.get(n), ast.Attribute)
+                       and parent[n].attr in methods and isinstance(parent.get(parent[n]), ast.Call) and parent[parent[n]].func is parent[n]]
+            if not pending:
+                break
+            attr = parent[pending[0]]
+            mcall = parent[attr]
+            h = _pseudo_helper(mn, methods[attr.attr], mapping)
+            if h is None or h.is_gen or attr.attr == "__init__":
+                return False
+            st = parent.get(mcall)
+            if isinstance(st, ast.Return) and st.value is mcall:
+                form = "tail"
+            elif isinstance(st, ast.Expr) and st.value is mcall and h.stmt_form():
+                form = "stmt"
+            elif isinstance(st, ast.Assign) and st.value is mcall and len(st.targets) == 1 and h.assign_form():
+                form = "assign"
+            elif h.expr_form():
+                form = "expr"
+            else:
+                # a value-returning method in guard-clause shape used inside an expression: bind it to a temporary first
+                return False
+            new = _instantiate(h, mcall, f, None, form, target=st.targets[0] if form == "assign" else None, shared=set(mapping.values()))
+            if new is None:
+                return False
+            if form == "expr":
+                holder = parent.get(mcall)
+                for fname, val in ast.iter_fields(holder):
+                    if val is mcall:
+                        setattr(holder, fname, new)
+                    elif isinstance(val, list):
+                        for i, v in enumerate(val):
+                            if v is mcall:
+                                val[i] = new
+            else:
+                holder = parent.get(st)
+                lst = next((getattr(holder, fn_) for fn_ in ("body", "orelse", "finalbody") if isinstance(getattr(holder, fn_, None), list) and st in getattr(holder, fn_)), None)
+                if lst is None:
+                    return False
+                i = lst.index(st)
+                lst[i:i + 1] = new
+        # 2. field accesses
+        parent = _parents(tree)
+        for n in [n for n in ast.walk(f) if isinstance(n, ast.Name) and n.id == x and isinstance(n.ctx, ast.Load)]:
+            a = parent.get(n)
+            if not (isinstance(a, ast.Attribute) and a.value is n and a.attr in mapping):
+                return False
+            holder = parent.get(a)
+            repl = ast.copy_location(ast.Name(id=mapping[a.attr], ctx=a.ctx), a)
+            for fname, val in ast.iter_fields(holder):
+                if val is a:
+                    setattr(holder, fname, repl)
+                elif isinstance(val, list):
+                    for i, v in enumerate(val):
+                        if v is a:
+                            val[i] = repl
+        # 3. the construction
+        parent = _parents(tree)
+        holder = parent.get(asg)
+        lst = next((getattr(holder, fn_) for fn_ in ("body", "orelse", "finalbody") if isinstance(getattr(holder, fn_, None), list) and asg in getattr(holder, fn_)), None)
+        if lst is None or any(isinstance(a, ast.Starred) for a in call.args) or any(kw.arg is None for kw in call.keywords):
+            return False
+        if dc or "__init__" not in methods:
+            if not dc and (call.args or call.keywords):
+                return False
+            given = dict(zip(fields, call.args))
+            if len(call.args) > len(fields):
+                return False
+            for kw in call.keywords:
+                if kw.arg not in fields or kw.arg in given:
+                    return False
+                given[kw.arg] = kw.value
+            new = []
+            for fl in (fields if dc else []):
+                v = given.get(fl, defaults.get(fl))
+                if v is None:
+                    return False
+                new.append(ast.copy_location(ast.Assign(targets=[ast.Name(id=mapping[fl], ctx=ast.Store())], value=copy.deepcopy(v), lineno=asg.lineno), asg))
+            new = new or [ast.copy_location(ast.Pass(), asg)]
+        else:
+            h = _pseudo_helper(mn, methods["__init__"], mapping)
+            if h is None or h.is_gen or not h.stmt_form():
+                return False
+            new = _instantiate(h, call, f, None, "stmt", shared=set(mapping.values()))
+            if new is None:
+                return False
+        for st in new:
+            ast.fix_missing_locations(st)
+        i = lst.index(asg)
+        lst[i:i + 1] = new
+        touched.append((f, list(mapping.values())))
+    for f, names in touched:
+        _propagate_copies(f, names)
+    # no mention left: remove the class
+    if any(isinstance(n, ast.Name) and n.id == kname for n in ast.walk(tree)):
+        return False
+    tree.body[:] = [st for st in tree.body if not (isinstance(st, ast.ClassDef) and st.name == kname)]
+    return True
+
+
+def _propagate_copies(f, names):
+    """Locals the normaliser itself introduced for the fields of a dissolved record: when every definition of such a local
+    is the same plain copy (`x_root = hasher.root`, `x_layers = layers`, a constant), the uses read the original and the copy
+    disappears.  Done only where the original cannot have been rebound in between (program order of the function body), and
+    for an attribute chain only where the object it starts from is not touched in between except by attribute reads."""
+    order = {}
+
+    def number(n):
+        order[id(n)] = len(order)
+        for c in ast.iter_child_nodes(n):
+            number(c)
+    for nm in names:
+        order.clear()
+        number(f)
+        parent = _parents(f)
+        stores = [n for n in ast.walk(f) if isinstance(n, ast.Name) and n.id == nm and isinstance(n.ctx, (ast.Store, ast.Del))]
+        defs = [parent.get(n) for n in stores]
+        if not defs or not all(isinstance(d, ast.Assign) and len(d.targets) == 1 and d.targets[0] is n for d, n in zip(defs, stores)):
+            continue
+        if len({ast.dump(d.value) for d in defs}) != 1:
+            continue
+        E = defs[0].value
+        base = E
+        while isinstance(base, ast.Attribute):
+            base = base.value
+        if not (isinstance(E, ast.Constant) or isinstance(base, ast.Name)) or (isinstance(E, ast.Name) and E.id in names):
+            continue
+        loads = [n for n in ast.walk(f) if isinstance(n, ast.Name) and n.id == nm and isinstance(n.ctx, ast.Load)]
+        if not loads:
+            continue
+        first, last = min(order[id(d)] for d in defs), max(order[id(n)] for n in loads)
+        if min(order[id(n)] for n in loads) < first:
+            continue
+        if isinstance(base, ast.Name):
+            b = base.id
+            # the original is not rebound after the first copy was taken
+            if any(isinstance(n, ast.Name) and n.id == b and isinstance(n.ctx, (ast.Store, ast.Del)) and order[id(n)] > first for n in ast.walk(f)):
+                continue
+            inside_loop = any(isinstance(a, (ast.For, ast.While)) for d in defs for a in _ancestors(parent, d))
+            if isinstance(E, ast.Attribute):
+                touched = False
+                for n in ast.walk(f):
+                    if isinstance(n, ast.Name) and n.id == b and first < order[id(n)] <= last:
+                        a = parent.get(n)
+                        if not (isinstance(a, ast.Attribute) and a.value is n and isinstance(a.ctx, ast.Load)
+                                and not (isinstance(parent.get(a), ast.Call) and parent[a].func is a)):
+                            touched = True
+                if touched or inside_loop:
+                    continue
+        for n in loads:
+            h = parent.get(n)
+            repl = ast.copy_location(copy.deepcopy(E), n)
+            for fname, val in ast.iter_fields(h):
+                if val is n:
+                    setattr(h, fname, repl)
+                elif isinstance(val, list):
+                    for i, v in enumerate(val):
+                        if v is n:
+                            val[i] = repl
+        for d in defs:
+            h = parent.get(d)
+            for fname in ("body", "orelse", "finalbody"):
+                lst = getattr(h, fname, None)
+                if isinstance(lst, list) and d in lst:
+                    lst.remove(d)
+                    if not lst and fname == "body":
+                        lst.append(ast.copy_location(ast.Pass(), d))
+        parent = _parents(f)
+
+
+def _ancestors(parent, n):
+    n = parent.get(n)
+    while n is not None:
+        yield n
+        n = parent.get(n)
